@@ -212,7 +212,17 @@ func variantsOf(model *tModel, s *jsite) (names []string, vals []*jVal) {
 	case kEnum:
 		if s.val.Kind == jStr {
 			if e := model.enum(s.tf.Ref); e != nil {
-				add("enum-prefixed", jS(e.Prefix+s.val.Str))
+				// (not when another option of the enum is literally called <prefix><name>: that spelling is then
+				// the canonical name of the other option)
+				ambiguous := false
+				for _, v := range e.Values {
+					if v == e.Prefix+s.val.Str {
+						ambiguous = true
+					}
+				}
+				if !ambiguous {
+					add("enum-prefixed", jS(e.Prefix+s.val.Str))
+				}
 			}
 		}
 	case kTimestamp:
